@@ -279,14 +279,17 @@ class Facts:
                 pname = x["name"][1]
                 (self.included if t == "include" else self.rendered).add(pname)
                 prov = self.provided.setdefault(pname, set())
-                prov.add("forloop")
-                prov.add(pname.split(".")[0])
                 for a, _ in x.get("args") or []:
                     prov.add(a)
                     self.block_scoped.add(a)
-                if x.get("alias"):
-                    prov.add(x["alias"])
-                    self.block_scoped.add(x["alias"])
+                if x.get("var") is not None:
+                    # `with X` / `for XS` binds the alias, or else the template's stem name - never both
+                    prov.add("forloop")
+                    if x.get("alias"):
+                        prov.add(x["alias"])
+                        self.block_scoped.add(x["alias"])
+                    else:
+                        prov.add(pname.split(".")[0])
                 self.bound |= prov
             for v in x.values():
                 if isinstance(v, (list, dict)):
